@@ -28,7 +28,7 @@ type histOp struct {
 	N       int    // ecb-*: blocks (0..24); blocks-*: multiple of Concurrency() (1..2); enc/dec: unused
 	InPlace bool   // dst == src
 	Reuse   string // "" fresh private copies; "end"/"start": the history's long-lived guard-page buffers (slice ends at / starts after the inaccessible page)
-	Bad     string // "" or a documented misuse that has to panic: "short-src" "short-dst" "nil-src" "nil-dst" "ragged" "overlap"
+	Bad     string // "" or a documented misuse that has to panic: "short-src" "short-dst" "short-dst-cap" "nil-src" "nil-dst" "ragged" "overlap"
 	Zero    string // ecb-* with N == 0: "nil" "empty" "zero-of-buffer" "dst-nonempty"
 	SrcOff  int    // fresh private copies: distance of src / dst from a 64-byte boundary (0..63)
 	DstOff  int
@@ -220,6 +220,27 @@ func checkHist(c histCase, r *h.Rec) error {
 					cut = need
 				}
 				dst = dst[cut:]
+			case "short-dst-cap":
+				// too short, but with room behind its length: a callee that re-slices dst
+				// to len(src) before checking would write into the caller's spare capacity
+				// instead of panicking (seeded change C03-8-1 did that to HCTR)
+				cut := k
+				if sel&0x100 != 0 {
+					cut = need
+				}
+				if cut > need {
+					cut = need
+				}
+				heap := gen.Fill(sel^0x5ca1ab1e, need+48)
+				want := append([]byte{}, heap...)
+				dst = heap[:need-cut]
+				if err := mustPanic(fmt.Sprintf("%s with misuse %q (len(dst)=%d cap(dst)=%d len(src)=%d)", what, op.Bad, len(dst), cap(dst), len(src)), func() { f(dst, src) }); err != nil {
+					return err
+				}
+				if !bytes.Equal(heap[need-cut:], want[need-cut:]) {
+					return fmt.Errorf("%s with a dst of %d bytes (cap %d) for %d bytes of input: the call wrote behind len(dst) into the caller's spare capacity", what, len(dst), cap(dst), len(src))
+				}
+				return nil
 			case "nil-src":
 				if isECB {
 					return nil // an empty ECB input is legal (covered by the Zero flavours)
@@ -353,7 +374,7 @@ func checkHist(c histCase, r *h.Rec) error {
 
 var (
 	histKinds = []string{"enc", "dec", "ecb-enc", "ecb-dec", "blocks-enc", "blocks-dec"}
-	histBad   = []string{"short-src", "short-dst", "nil-src", "nil-dst", "ragged", "overlap"}
+	histBad   = []string{"short-src", "short-dst", "short-dst-cap", "nil-src", "nil-dst", "ragged", "overlap"}
 	histZero  = []string{"nil", "empty", "zero-of-buffer", "dst-nonempty"}
 )
 
